@@ -1,15 +1,17 @@
 #!/bin/bash
 # Confirms every seeded change independently in a scratch worktree of /repo's HEAD:
 #   demo passes on the clean tree, patch applies and builds, demo fails with the patch, the repository's own suite still passes.
-# Confirmed changes are stored in /verif/seeded/<id>-<m>/ (patch.diff, demo, NOTES.md, meta.json). usage: verify_mutants.sh [id-filter]
+# Confirmed changes are stored in /verif/seeded/<id>-<m>/ (patch.diff, demo, NOTES.md, meta.json).
 . /verif/env.sh
 raw=/root/mutants-raw
-wt=/tmp/vm-wt
-filter="${1:-}"
+# usage: verify_mutants.sh [worktree-suffix [id...]]   (several instances with different suffixes can run side by side)
+wt=/tmp/vm-wt${1:+-$1}
+shift 2>/dev/null
+filter=" $* "
 git -C /repo worktree remove --force $wt 2>/dev/null
 git -C /repo worktree add -q --detach $wt HEAD || exit 1
 grep -v '^#' /verif/tools/mutants.tsv | while IFS=$'\t' read -r id m place cmd; do
-  [ -n "$filter" ] && [ "$id" != "$filter" ] && continue
+  [ "$filter" != "  " ] && [[ "$filter" != *" $id "* ]] && continue
   src=$raw/mutout-$id/$m
   patch=$src/patch.diff; [ -f $src/patch.rebased.diff ] && patch=$src/patch.rebased.diff
   git -C $wt checkout -q -- . ; git -C $wt clean -fdq
